@@ -311,6 +311,26 @@ def hostile_ok(it):
     return all(t in ('Tr', 'Tr2', '+', ':', ',') or t.startswith("'") or t in [p[1] for p in g['params']] or t in ('u8', 'usize') or t.isdigit() for t in toks)
 
 
+def has_skip(it):
+    k = it['kind']
+    def dw_metas(attrs):
+        for a in attrs:
+            if a[0] == 'Dw' and a[1][0] == 'List':
+                for m in a[1][1]:
+                    yield m
+    names = lambda attrs: [m[1][1][0] for m in dw_metas(attrs) if m[0] in ('P', 'L') and len(m[1][1]) == 1]
+    if any(n in ('skip', 'skip_inner') for n in names(it['attrs'])):
+        return True
+    vs = k[1] if k[0] == 'Enum' else [dict(attrs=[], fields=k[2] if k[0] == 'Struct' else k[1])]
+    for v in vs:
+        if any(n in ('skip', 'skip_inner') for n in names(v['attrs'])):
+            return True
+        for f in v['fields']:
+            if any(n in ('skip', 'skip_inner') for n in names(f['attrs'])):
+                return True
+    return False
+
+
 def item_module(idx, cid, it, vals, zeroize, hostile=False):
     """Rust source of one module running all observations of one item"""
     pit = it
@@ -359,6 +379,21 @@ def item_module(idx, cid, it, vals, zeroize, hostile=False):
         L.append('{ let d = <%s as Default>::default(); println!("I-default {}", show(&d)); std::mem::forget(d); }' % ty)
     if 'Debug' in ts:
         L.append('for a in &vals { println!("I-debug {}", esc(format!("{:?}", a))); println!("I-debugp {}", esc(format!("{:#?}", a))); }')
+        if not hostile and not has_skip(it):
+            # nothing is skipped: the standard derive on a mirror type (same names, in a sub-module) must print the same text
+            mit = copy.deepcopy(it)
+            mit['attrs'] = [a for a in mit['attrs'] if a[0] == 'Repr']
+            mit['vis'] = ['pub']
+            kk = mit['kind']
+            for v in (kk[1] if kk[0] == 'Enum' else [dict(attrs=[], fields=kk[2])]):
+                v['attrs'] = []
+                for f in v['fields']:
+                    f['attrs'] = []
+                    if kk[0] != 'Enum':
+                        f['vis'] = ['pub']
+            L.append('pub mod mirror { use super::super::*; #[derive(Debug)] %s }' % item_txt(mit))
+            L.append('let mkm: Vec<fn() -> mirror::%s> = vec![%s];' % (ty, ', '.join('|| mirror::' + ctor_expr(it, vi, fv, pt) for vi, fv in vals)))
+            L.append('for f in &mkm { let a = f(); println!("I-stddebug {}", esc(format!("{:?}", a))); println!("I-stddebugp {}", esc(format!("{:#?}", a))); }')
     if 'Zeroize' in ts:
         L.append('for f in &mk { let mut a = f(); log_take(); zeroize::Zeroize::zeroize(&mut a); let l = log_take(); println!("I-zeroize {}|{}", show(&a), l.iter().map(|x| format!("{},", x)).collect::<String>()); std::mem::forget(a); }')
     if 'ZeroizeOnDrop' in ts:
